@@ -204,6 +204,55 @@ def run_cases(ctx, specs):
     return len(specs), nt
 
 
+def reported_cases():
+    """Several rows at once: the marginal ln-likelihood REPORTED with a returned row (return_logprobs) is the marginal likelihood
+    of that row's own nonlinear parameters, and the row's orbit gives a finite unmarginalised likelihood -- on the in-memory path
+    and through the cache file with a shuffled evaluation order and several batches."""
+    import astropy.units as u
+    import sampling as S
+    from c02 import real_prior
+    from thejoker.data import RVData
+    from thejoker.samples import JokerSamples
+    from thejoker.thejoker import TheJoker
+
+    out = []
+    r = np.random.default_rng(404)
+    t = 55000 + np.sort(np.round(r.uniform(0, 60, 9) * 64) / 64)
+    rv = np.round((6 * np.cos(2 * np.pi * t / 3.4375) + r.normal(0, 4, 9)) * 64) / 64
+    data = RVData(t, rv * u.km / u.s, np.full(9, 12.0) * u.km / u.s)  # wide errors: many rows are accepted
+    lib = S.make_library(48, seed=5, with_lnprior=True, alt_units=True)
+    for path in ("inmem", "file"):
+        case = dict(family="reported", path=path)
+        with warnings.catch_warnings():
+            warnings.simplefilter("ignore")
+            try:
+                joker = TheJoker(real_prior(), rng=np.random.default_rng(11))
+                kw = dict(in_memory=True) if path == "inmem" else dict(in_memory=False, randomize_prior_order=True, n_batches=3)
+                res = joker.rejection_sample(data, lib, return_logprobs=True, n_linear_samples=2, **kw)
+                if len(res) < 4:
+                    out.append((case, f"only {len(res)} rows returned: the scenario does not exercise several rows"))
+                    continue
+                bad = None
+                for i in range(min(len(res), 16)):
+                    sub = JokerSamples()
+                    for nm in ("P", "e", "omega", "M0", "s"):
+                        sub[nm] = res[nm][i: i + 1]
+                    ll_own = float(np.asarray(joker.marginal_ln_likelihood(data, sub, in_memory=True))[0])
+                    ll_rep = float(np.asarray(res["ln_likelihood"])[i])
+                    ll_un = float(np.asarray(res[i: i + 1].ln_unmarginalized_likelihood(data))[0])
+                    if not abs(ll_own - ll_rep) <= 1e-9 * (1 + abs(ll_own)):
+                        bad = f"row {i}: reported marginal ln-likelihood {ll_rep!r} but its own nonlinear parameters give {ll_own!r}"
+                        break
+                    if not np.isfinite(ll_un):
+                        bad = f"row {i}: ln_unmarginalized_likelihood of the reconstructed orbit is {ll_un!r}"
+                        break
+                if bad:
+                    out.append((case, f"{path} path, {len(res)} rows: {bad}"))
+            except Exception as e:
+                out.append((case, f"{path} path: raised {type(e).__name__}: {str(e)[:200]}"))
+    return out
+
+
 def run(ctx):
     ok = kernel_setup(ctx, needed=(), soft=("py2v_design.py",))  # Gen/DesignGen.v: the column order of the design matrix as the source has it now
     if ok:
@@ -230,11 +279,14 @@ def run(ctx):
             if errs:
                 ctx.fail("predicate", SIG, errs[0], case=spec)
                 break
+    for case, msg in reported_cases():
+        ctx.fail("predicate", "C04:reported", msg, case=case)
+    n_eval += 2
     ctx.coverage.update(evaluations=n_eval, distinct_nontrivial=nt)
     return ctx.finish(
         rule="random problems as for C01 (poly_trend 1..3, 0..2 offsets in time-disjoint surveys, jitter, default/custom K prior, units varied), "
         "single-source problems with an explicit reference epoch before / inside / after the observations; per problem one posterior draw returned "
-        "by rejection_sample and one hand-built row (every linear parameter moved); non-trivial = a problem whose rows were compared",
+        "by rejection_sample and one hand-built row (every linear parameter moved); two many-row calls (in memory; cache file with shuffled order and 3 batches) whose reported ln_likelihood is recomputed from each row's own parameters; non-trivial = a problem whose rows were compared",
         assumptions=["twobody's KeplerOrbit / PolynomialRVTrend evaluate the orbit they are given (the unit Keplerian g is abstract in the theorem; "
                      "its values at the data epochs are table inputs of the model)",
                      "for survey k >= 1 the harness subtracts the row's own dv0_k from that survey's velocities before calling "
@@ -247,7 +299,7 @@ def run(ctx):
 def replay(ctx, path):
     payload = json.load(open(path))
     spec = payload.get("case")
-    if spec is None:
+    if spec is None or spec.get("family") == "reported":
         return run(ctx)
     ok = kernel_setup(ctx, needed=())
     if ok:
